@@ -15,10 +15,10 @@ package main
 
 import (
 	"fmt"
-	"sort"
 	"go/token"
 	"go/types"
 	"os"
+	"sort"
 	"strings"
 
 	"golang.org/x/tools/go/ssa"
